@@ -1464,6 +1464,14 @@ class Interp:
             if name == '__name__':
                 return obj.name.split('.')[-1]
             raise Unsupported(f'function attribute {name}', node)
+        if isinstance(obj, Partial):
+            if name == 'func':
+                return obj.func
+            if name == 'keywords':
+                return dict(obj.kwargs)
+            if name == 'args':
+                return tuple(obj.args)
+            raise Unsupported(f'partial attribute {name}', node)
         return bm.value_getattr(self, obj, name, node)
 
     def class_const(self, cls, member, name):
